@@ -5,6 +5,7 @@ import itertools
 
 from chartgen import b_line, chart_text, e_line, n_line, outcome, s_line, ts_line
 from common import limbs, load_impl, td_us
+from common import exc_name  # noqa: E402
 
 HEADER = "ExpertSingle"
 ALL_LANESETS = [tuple(j for j in range(5) if m >> j & 1) for m in range(1, 32)]  # 31 subsets
@@ -138,7 +139,7 @@ def observe(case, props) -> dict:
     rec = _blank(case["id"], case, case["body"], props)
     kind, val = outcome(case_text(case))
     if kind == "raise":
-        rec["raised"] = type(val).__name__
+        rec["raised"] = exc_name(val)
         rec["msg"] = str(val)[:200]
         return rec
     chart = val
@@ -169,7 +170,7 @@ def observe_multi(case, props) -> list:
     kind, val = outcome(multi_text(case))
     if kind == "raise":
         for rec in recs:
-            rec["raised"] = type(val).__name__
+            rec["raised"] = exc_name(val)
             rec["msg"] = str(val)[:200]
         return recs
     chart = val
